@@ -1,6 +1,6 @@
 (** C03 — compiled evaluation implements the core-language semantics: property theorems only. *)
 From Coq Require Import ZArith List Bool Arith.
-From ChibiV Require Import C03.Defs C03.Model C03.Spec C03.Proofs C03.Simulation C03.SimCalls C03.SimBoxes C03.SimRest C03.SimClos.
+From ChibiV Require Import C03.Defs C03.Model C03.Spec C03.Proofs C03.Simulation C03.SimCalls C03.SimBoxes C03.SimRest C03.SimClos C03.SimFull.
 Import ListNotations.
 
 (** distinct variables of one frame (parameters, rest, internal defines) never share a slot *)
@@ -186,3 +186,49 @@ Theorem compile_correct_partial_boxes : forall c svs B fp0 stk0 env,
     /\ evolves B (heap s) h' /\ vrelB B h' v' v /\ imp_rel c svs B fp0 stk0 env st' h' gl'.
 Proof. exact SimBoxes.compile_correct_boxes_fragment. Qed.
 Print Assumptions compile_correct_partial_boxes.
+
+(** ASSIGNMENTS, BOXES, INTERNAL DEFINES, CLOSURES AND CALLS TOGETHER (coq/C03/SimFull.v), fragment [fragA] over
+    fixed-arity lambdas: literals, global references, references to variables of the current frame (parameters and
+    internal defines) and to free variables in the current lambda's fv list, set! of such variables (boxed: they are in
+    their owner's sv list, [SV] = the program's table of assigned variables), if, begin, the inlined opcodes except eq?,
+    lambda expressions with internal defines and any fetchable fv list, applications in non-tail and tail position --
+    the language of named let, letrec, do loops, internal defines, counters.  Boxes are shared between frames and
+    closure vectors and mutated, so the simulation relation is indexed by a WORLD W = (heap, SPEC cells, partial
+    injection location -> box): [vrelW] relates values, [WINV] says every box holds a value representing the content of
+    its location, [env_okA] relates the current frame / closure vector / globals, [wext] is world extension (only box
+    contents and boxed locations change, new cells are fresh).  Whenever the SPEC yields (v, st'), the code runs to the
+    instruction after it with v' pushed on the unchanged stack (or, in tail position after a TAIL-CALL, to the return
+    point of the current frame), in a world W' that extends W, has the cells of st', satisfies the invariant, and
+    relates v' to v.
+    MISSING for the full compile_correct: rest parameters and set! of globals are proved in separate fragments
+    (compile_correct_partial / _rest / _boxes) but not merged into this one; eq? on pairs; error outcomes; the driver
+    run_program over several top-level forms. *)
+Theorem compile_correct_partial_imperative : forall SV fuel e cur env st v st' tl svs s pre post W,
+  fragA SV cur e = true ->
+  eval fuel e env st = SVal v st' ->
+  agrees SV svs ->
+  code_of (self s) = pre ++ generate tl svs (lctxA cur) e ++ post -> ip s = length pre ->
+  wh W = heap s -> wc W = cells st -> WINV SV W ->
+  env_okA SV cur env (sglobals st) W s ->
+  sglobals st' = sglobals st /\
+  exists W' v', wext W W' /\ wc W' = cells st' /\ WINV SV W' /\ vrelW SV W' v' v /\
+    ((exists n, nsteps n s = Some (mkst (v' :: stk s) (fp s) (self s)
+                                        (length pre + length (generate tl svs (lctxA cur) e)) (wh W') (globals s)))
+     \/ (tl = true /\ forall j rip rself rfp, frame_info s = Some (j, rip, rself, rfp) -> j <= fp s ->
+           exists n, nsteps n s = Some (mkst (v' :: below (fp s - j) (stk s)) rfp rself rip (wh W') (globals s)))).
+Proof. exact SimFull.compile_correct_imperative_fragment. Qed.
+Print Assumptions compile_correct_partial_imperative.
+
+(** end to end for one top-level expression of [fragA]: the thunk runs to completion with a value representing the
+    SPEC's value, in a world that extends the initial one and satisfies the invariant *)
+Theorem compile_correct_partial_toplevel_expr_imperative : forall SV fuel e st v st' svs W gl,
+  fragA SV None e = true ->
+  eval fuel e [] st = SVal v st' ->
+  agrees SV svs -> wc W = cells st -> WINV SV W ->
+  (forall g w, glob_lookup g (sglobals st) = Some w -> exists v0, assoc_nat g gl = Some v0 /\ vrelW SV W v0 w) ->
+  exists s0 n v' s' W',
+    init_state (generate true svs None e ++ [IRet]) (wh W) gl = Next s0 /\
+    run n s0 = Done v' s' /\ wext W W' /\ heap s' = wh W' /\ wc W' = cells st' /\ WINV SV W' /\
+    vrelW SV W' v' v /\ globals s' = gl.
+Proof. exact SimFull.compile_correct_toplevel_expr_imperative. Qed.
+Print Assumptions compile_correct_partial_toplevel_expr_imperative.
